@@ -30,7 +30,8 @@ CONSTANTS C,            \* number of tape colours
           MaxStages, MaxBatch,
           CotStages,    \* pipelines of 1..CotStages stages (on a one-tape batch, as a QNode gives) are also explored with a
                         \* CLASSICAL COTRANSFORM on their last stage (a hybrid gradient transform)
-          Muts          \* {0} = the algorithm as documented.  Negative controls of the model (Routing must fail for each):
+          Muts          \* 0 = the algorithm as documented (the invariants speak about these behaviours only).
+                        \* Negative controls of the model, explored for pipelines of <= 2 stages (Routing must fail for each):
                         \*   1 = a stage that forgets to advance `start` (every slice begins at 0)
                         \*   2 = the classical Jacobian looked up per transform only (every tape gets the one of tape 0)
 VARIABLES pipe, batch, s, cur, stack, phase, res, leaves, allsl, cot, mut
@@ -47,7 +48,7 @@ InitWith(p, b, ct, m) == /\ pipe = p /\ batch = b /\ s = 1 /\ cur = Roots(b) /\ 
                          /\ res = <<>> /\ leaves = <<>> /\ allsl = <<>> /\ cot = ct /\ mut = m
 Init == \E p \in Pipes, b \in Batches, m \in Muts :
           \E ct \in (IF Len(p) >= 1 /\ Len(p) <= CotStages /\ Len(b) = 1 THEN BOOLEAN ELSE {FALSE}) :
-             (m = 2 => ct) /\ InitWith(p, b, ct, m)
+             (m = 2 => ct) /\ (m # 0 => Len(p) <= 2) /\ InitWith(p, b, ct, m)
 
 \* for bound_transform in self:  new_tapes, fn = transform(tape); slices.append(slice(start, end)); ...
 \*     jac = cotransform_cache.get_classical_jacobian(bound_transform, tape_idx)
@@ -88,11 +89,11 @@ RC(t, st) ==
 Expected == IF cot THEN [i \in 1..Len(batch) |-> RC(Roots(batch)[i], 1)]
             ELSE [i \in 1..Len(batch) |-> R(Roots(batch)[i], 1, pipe, Base, C)]
 Routing == (phase = "done" /\ mut = 0) => res = Expected
-SlicesCover == \A lv \in 1..Len(stack) :
+SlicesCover == mut # 0 \/ \A lv \in 1..Len(stack) :
                  LET e == stack[lv] IN
                  /\ \A i \in 1..Len(e) : e[i].lo <= e[i].hi /\ (i > 1 => e[i].lo = e[i - 1].hi)
                  /\ (Len(e) > 0 => e[1].lo = 0)
-Shape == phase = "post" => Len(res) = (IF stack = <<>> THEN Len(batch) ELSE
+Shape == (phase = "post" /\ mut = 0) => Len(res) = (IF stack = <<>> THEN Len(batch) ELSE
                                         LET e == stack[Len(stack)] IN IF Len(e) = 0 THEN 0 ELSE e[Len(e)].hi)
 \* number of stages where some tape is dropped / split into several, for the vacuity counts
 NDropped == Cardinality({k \in 1..Len(pipe) : \E c \in 0..(C - 1) : pipe[k][c] = 0})
